@@ -484,7 +484,7 @@ func c03EndToEnd(c *vf.Ctx) {
 			mode = MountDiscovery
 		}
 		idInAddrOnly := r.Intn(3) == 0
-		tk := r.Intn(len(headTampers) + 7)
+		tk := r.Intn(len(headTampers) + 8)
 		c.Cur(sub, i, fmt.Sprintf("%s mode=%s tamper=%d", cs.id, mode, tk))
 		pubStore := NewStore()
 		chain, err := NewChain(r, pubStore, 1+r.Intn(3), cs.id.ID, linkProto(multihash.SHA2_256, -1))
@@ -521,6 +521,7 @@ func c03EndToEnd(c *vf.Ctx) {
 		var tname string
 		expectReject := true
 		askOther := false
+		askOtherAfterGood := false
 		priorSync := false // the same subscriber first syncs a genuine, older head (its sync client is then reused)
 		switch {
 		case tk < len(headTampers):
@@ -561,6 +562,12 @@ func c03EndToEnd(c *vf.Ctx) {
 		case tk == len(headTampers)+3 || tk == len(headTampers)+4:
 			tname = "replay-of-earlier-genuine-head-with-another-cid"
 			priorSync = len(chain.Cids) > 1
+		case tk == len(headTampers)+6:
+			// the subscriber has synced the real publisher at this address; then the caller asks for ANOTHER identity
+			// at the very same address (whatever the subscriber remembers about the address must not stand in for
+			// the check of the head's signer)
+			tname = "asked-for-another-identity-at-an-address-synced-before"
+			askOtherAfterGood = true
 		case tk == len(headTampers)+5:
 			// the caller asks for identity A; the address it passes ends in /p2p/B and leads to B's publisher,
 			// which serves its own genuine head: not signed by the publisher the caller asked to sync
@@ -596,6 +603,20 @@ func c03EndToEnd(c *vf.Ctx) {
 			p2p, _ := multiaddr.NewComponent("p2p", cs.id.ID.String())
 			pi = peer.AddrInfo{Addrs: []multiaddr.Multiaddr{front.Addr.Encapsulate(p2p)}}
 		}
+		var baseLatest cid.Cid
+		if askOtherAfterGood {
+			if _, err := s.SyncAdChain(context.Background(), pi); err != nil {
+				c.Fail(sub, i, "genuine-head-rejected:"+cs.id.Type, err.Error(), nil)
+				front.Close()
+				s.Close()
+				continue
+			}
+			baseLatest = chain.Head()
+			pi = peer.AddrInfo{ID: cs.other.ID, Addrs: []multiaddr.Multiaddr{front.Addr}}
+			front.ResetLog()
+			hooks = nil
+			c.Inc("e2e_asked_for_other_identity_after_good_sync")
+		}
 		if askOther {
 			p2p, _ := multiaddr.NewComponent("p2p", cs.id.ID.String())
 			pi = peer.AddrInfo{ID: cs.other.ID, Addrs: []multiaddr.Multiaddr{front.Addr.Encapsulate(p2p)}}
@@ -605,7 +626,6 @@ func c03EndToEnd(c *vf.Ctx) {
 			return map[string]any{"publisher": cs.id.String(), "alteration": tname, "mount": mode.String(), "id_only_in_address": idInAddrOnly,
 				"genuine_head": string(genuine), "served_head": string(body), "requests": BlockRequests(front.Log()), "hooks": hooks}
 		}
-		var baseLatest cid.Cid
 		if priorSync {
 			// genuine sync of the oldest advertisement; then the publisher moves on and the response to the
 			// next head query is the EARLIER genuine response (same key, same signature) with the new head's CID
@@ -667,7 +687,7 @@ func c03EndToEnd(c *vf.Ctx) {
 				if (latest == nil) != !baseLatest.Defined() || (latest != nil && !latest.(cidlink.Link).Cid.Equals(baseLatest)) {
 					c.Fail(sub, i, "altered-head-changed-latest:"+tname, fmt.Sprint(latest), wit())
 				}
-				if askOther && s.GetLatestSync(cs.other.ID) != nil {
+				if (askOther || askOtherAfterGood) && s.GetLatestSync(cs.other.ID) != nil {
 					c.Fail(sub, i, "altered-head-changed-latest:"+tname, "latest-synced recorded for the identity asked for", wit())
 				}
 				c.Inc("e2e_rejections_expected")
